@@ -291,11 +291,11 @@ func (e *Env) tr(x ast.Expr, hint types.Type) Term {
 			m := w.reg.elemMem(u.Elem())
 			if id, ok := x.Index.(*ast.Ident); ok {
 				if av, ok := e.abs[id.Name]; ok && av.off == "(s-off "+b.S+")" {
-					return mkTerm(w, sel(sel(e.memTerm(m), "(s-arr "+b.S+")"), av.name), u.Elem())
+					return mkTerm(w, sel(innerOf(e.st(), m, e.memTerm(m), "(s-arr "+b.S+")"), av.name), u.Elem())
 				}
 			}
 			i := e.tr(x.Index, types.Typ[types.Int])
-			return mkTerm(w, sel(sel(e.memTerm(m), "(s-arr "+b.S+")"), eidx("(s-off "+b.S+")", i.S)), u.Elem())
+			return mkTerm(w, sel(innerOf(e.st(), m, e.memTerm(m), "(s-arr "+b.S+")"), eidx("(s-off "+b.S+")", i.S)), u.Elem())
 		case *types.Map:
 			k := e.tr(x.Index, u.Key())
 			_, mv := w.reg.mapMems(u)
@@ -851,14 +851,14 @@ func (e *Env) call(x *ast.CallExpr, hint types.Type) Term {
 		s := e.tr(arg(0), nil)
 		st := s.T.Underlying().(*types.Slice)
 		m := w.reg.elemMem(st.Elem())
-		return Term{sel(e.memTerm(m), "(s-arr "+s.S+")"), fmt.Sprintf("(Array %s %s)", bv64, w.reg.sortOf(st.Elem())), nil}
+		return Term{innerOf(e.st(), m, e.memTerm(m), "(s-arr "+s.S+")"), fmt.Sprintf("(Array %s %s)", bv64, w.reg.sortOf(st.Elem())), nil}
 	case "ifaceOf": // ifaceOf(p, I): interface value of static type I holding pointer p
 		p := e.tr(arg(0), nil)
 		it := e.evalType(arg(1))
 		return mkTerm(w, w.makeIface(p), it)
 	case "refOf":
 		v := e.tr(arg(0), nil)
-		return Term{w.refOf(v), "Int", nil}
+		return Term{w.refOf(v), "Int", mathIntType}
 	case "allocBytes":
 		return Term{e.st().A, wideSort, wideIntType}
 	case "toWide": // a non-negative machine integer as a 128-bit ghost integer
@@ -870,7 +870,7 @@ func (e *Env) call(x *ast.CallExpr, hint types.Type) Term {
 		b := e.tr(arg(0), nil)
 		m := w.reg.elemMem(types.Typ[types.Byte])
 		w.reg.declareUFraw("bytesval", fmt.Sprintf("(Array %s (_ BitVec 8)) %s %s", bv64, bv64, bv64), "Int")
-		return Term{fmt.Sprintf("(ite (= (s-len %s) #x0000000000000000) 0 (uf_bytesval %s (s-off %s) (s-len %s)))", b.S, sel(e.memTerm(m), "(s-arr "+b.S+")"), b.S, b.S), "Int", mathIntType}
+		return Term{fmt.Sprintf("(ite (= (s-len %s) #x0000000000000000) 0 (uf_bytesval %s (s-off %s) (s-len %s)))", b.S, innerOf(e.st(), m, e.memTerm(m), "(s-arr "+b.S+")"), b.S, b.S), "Int", mathIntType}
 	case "mapVal": // abstract content of a map in the current state
 		mv := e.tr(arg(0), nil)
 		mt, ok := mv.T.Underlying().(*types.Map)
@@ -883,7 +883,7 @@ func (e *Env) call(x *ast.CallExpr, hint types.Type) Term {
 		w.reg.declareUFraw(ufn, fmt.Sprintf("(Array %s Bool) (Array %s %s)", ks, ks, vs), "Int")
 		return Term{fmt.Sprintf("(ite (= %s 0) 0 (uf_%s %s %s))", mv.S, ufn, sel(e.memTerm(md), mv.S), sel(e.memTerm(mvm), mv.S)), "Int", mathIntType}
 	case "watermark":
-		return Term{e.st().W, "Int", nil}
+		return Term{e.st().W, "Int", mathIntType}
 	case "toInt": // mathematical value of a non-negative machine integer (ghost arithmetic only)
 		v := e.tr(arg(0), types.Typ[types.Int])
 		return Term{"(bv2nat " + v.S + ")", "Int", mathIntType}
